@@ -146,6 +146,53 @@ class Compiler:
         self.ref_exc = {}       # object name -> exception class raised by `raise <that object>`
         self.kwargs_expanders = {}  # record class -> fn(fields) -> {keyword: rexpr}
 
+    # ------------------------------------------------------------------ instance attributes the model does not list
+    def declare_auto_fields(self, S, skip_methods=("__init__", "__setstate__", "__getstate__", "_make_methods", "__repr__")):
+        """Instance attributes that the (current) source assigns in a method body (`self.x = ...`) but that the
+        object graph does not list become plain integer/Boolean fields hosted by an automatic model, so that a
+        change which keeps per-call state on the shared object (instead of in a local) is compiled and checked
+        rather than rejected as unsupported. Initial value 0 / False; written and read like any other field."""
+        from .prims_exec import FieldsModel
+        made = []
+        for oname, info in list(self.objects.items()):
+            cls = info.get("cls")
+            if not cls:
+                continue
+            seen, todo, found = set(), [cls], {}
+            while todo:
+                c = todo.pop(0)
+                if c in seen or c not in self.ct.classes:
+                    continue
+                seen.add(c)
+                bases, meths, _ = self.ct.classes[c]
+                todo += bases
+                for mname, fn in meths.items():
+                    if mname in skip_methods or not fn.args.args:
+                        continue
+                    me = fn.args.args[0].arg
+                    for node in ast.walk(fn):
+                        tgts = []
+                        if isinstance(node, ast.Assign):
+                            tgts, val = node.targets, node.value
+                        elif isinstance(node, (ast.AugAssign, ast.AnnAssign)):
+                            tgts, val = [node.target], node.value
+                        for t in tgts:
+                            for tt in (t.elts if isinstance(t, ast.Tuple) else [t]):
+                                if isinstance(tt, ast.Attribute) and isinstance(tt.value, ast.Name) and tt.value.id == me:
+                                    isb = isinstance(val, ast.Constant) and isinstance(val.value, bool)
+                                    found.setdefault(tt.attr, "bool" if isb else "int")
+            attrs = info.setdefault("attrs", {})
+            new = {a: ty for a, ty in found.items() if a not in attrs}
+            if not new:
+                continue
+            host = f"{oname}.$auto"
+            self.objects[host] = {"model": FieldsModel(host, S, {a: (ty, False if ty == "bool" else 0) for a, ty in new.items()})}
+            for a in new:
+                attrs[a] = ("field", host)
+                made.append(f"{oname}.{a}")
+        self.auto_fields = made
+        return made
+
     # ------------------------------------------------------------------ entry
     def compile_call(self, obj, method, args_rexpr, end_label="end"):
         """CFG for `obj.method(*args)` run as a thread body / API call. Returns entry node."""
